@@ -169,6 +169,15 @@ theorem stepA_hist {w w' : World} {act : Act} (Ha : Hist w.a) (Hb : Hist w.b) (h
       · simp only [Except.ok.injEq] at hs
         subst hs
         exact ⟨hist_same rfl rfl Ha, hist_same rfl rfl Hb⟩
+  | unpark =>
+    simp only [stepA] at hs
+    split at hs
+    · cases hs
+    · split at hs
+      · cases hs
+      · simp only [Except.ok.injEq] at hs
+        subst hs
+        exact ⟨hist_gotRecord _ _ (hist_same (s := w.a) rfl rfl Ha), Hb⟩
   | listen n =>
     simp only [stepA] at hs
     split at hs
